@@ -37,40 +37,46 @@ structure TaskOk (val : Nat) (t : Task) : Prop where
   kind : (t.observe = true → t.phase ≠ .plainRender) ∧
          (t.observe = false → t.phase = .fresh ∨ t.phase = .plainRender ∨ t.phase = .done)
   seenLe : t.seen ≤ val
-  /-- an explicit response waiting in the trigger future is as new as the trigger (or ends it) -/
-  trigGood : ∀ r, t.trig = some (some r) → t.seen ≤ r.body ∨ success r.code = false
+  /-- an explicit response waiting in the trigger future is a message, not an exception, and is as
+  new as the trigger (or ends the observation) -/
+  trigGood : ∀ r, t.trig = some (some r) →
+    r.exc = false ∧ (t.seen ≤ r.body ∨ success r.code = false)
   cov : t.observe = true → t.accepted = true → t.phase ≠ .done → Covered t
+  /-- a task that ended by a successful last-marked notification: that notification is as new as
+  the last trigger that reached the observation -/
+  fin : t.lastSent = true →
+    t.phase = .done ∧ t.observe = true ∧ (t.accepted = true → t.seen ≤ t.sentVer)
 
 theorem newTask_ok (val sv : Nat) (r : MsgLayer.Remote) (w : MsgLayer.Wire) :
     TaskOk val (newTask sv r w) := by
-  refine ⟨?_, ?_, ?_, ?_, ?_, ?_, ?_, ?_, ?_, ?_, ?_, ?_⟩ <;> simp [newTask]
+  refine ⟨?_, ?_, ?_, ?_, ?_, ?_, ?_, ?_, ?_, ?_, ?_, ?_, ?_⟩ <;> simp [newTask]
 
 theorem TaskOk_mono {val val' : Nat} {t : Task} (h : TaskOk val t) (hv : val ≤ val') : TaskOk val' t :=
   { h with seenLe := Nat.le_trans h.seenLe hv }
 
 /-- expose every field of the task and of the invariant, then let `simp` decide -/
 macro "task_auto" : tactic => `(tactic|
-  (refine ⟨?_, ?_, ?_, ?_, ?_, ?_, ?_, ?_, ?_, ?_, ?_, ?_⟩ <;>
+  (refine ⟨?_, ?_, ?_, ?_, ?_, ?_, ?_, ?_, ?_, ?_, ?_, ?_, ?_⟩ <;>
    (try simp_all [Covered]) <;> (try omega)))
 
 theorem cancelTask_ok {val : Nat} {t : Task} (h : TaskOk val t) : TaskOk val (cancelTask t) := by
-  obtain ⟨h1, h2, h3, h4, h5, h5', h6, h7, h8, h9, h10, h11⟩ := h
+  obtain ⟨h1, h2, h3, h4, h5, h5', h6, h7, h8, h9, h10, h11, h12⟩ := h
   obtain ⟨srv, remote, token, observe, phase, runnable, cancelReq, accepted, obsNo, trig, early,
-    late, renderOut, renderVer, cbRuns, seen, sentVer⟩ := t
+    late, renderOut, renderVer, cbRuns, seen, sentVer, lastSent⟩ := t
   unfold cancelTask
   cases phase <;> cases renderOut <;> simp only [] <;> task_auto
 
 theorem trigTask_ok {val ver : Nat} {t : Task} (h : TaskOk val t) (hv : val ≤ ver)
     (v : Option Resp) (isLast : Bool)
-    (hb : ∀ r, v = some r → ver ≤ r.body ∨ success r.code = false) :
+    (hb : ∀ r, v = some r → r.exc = false ∧ (ver ≤ r.body ∨ success r.code = false)) :
     TaskOk ver (trigTask t v isLast ver) := by
-  obtain ⟨h1, h2, h3, h4, h5, h5', h6, h7, h8, h9, h10, h11⟩ := h
+  obtain ⟨h1, h2, h3, h4, h5, h5', h6, h7, h8, h9, h10, h11, h12⟩ := h
   obtain ⟨srv, remote, token, observe, phase, runnable, cancelReq, accepted, obsNo, trig, early,
-    late, renderOut, renderVer, cbRuns, seen, sentVer⟩ := t
+    late, renderOut, renderVer, cbRuns, seen, sentVer, lastSent⟩ := t
   unfold trigTask
   simp only []
   split
-  · exact ⟨h1, h2, h3, h4, h5, h5', h6, h7, h8, Nat.le_trans h9 hv, h10, h11⟩
+  · exact ⟨h1, h2, h3, h4, h5, h5', h6, h7, h8, Nat.le_trans h9 hv, h10, h11, h12⟩
   · cases v <;> task_auto
 
 theorem deregTask_ok {val : Nat} {t : Task} (h : TaskOk val t) : TaskOk val (deregTask t val) := by
@@ -78,19 +84,19 @@ theorem deregTask_ok {val : Nat} {t : Task} (h : TaskOk val t) : TaskOk val (der
   split
   · exact h
   · split
-    · obtain ⟨h1, h2, h3, h4, h5, h5', h6, h7, h8, h9, h10, h11⟩ := h
+    · obtain ⟨h1, h2, h3, h4, h5, h5', h6, h7, h8, h9, h10, h11, h12⟩ := h
       obtain ⟨srv, remote, token, observe, phase, runnable, cancelReq, accepted, obsNo, trig, early,
-        late, renderOut, renderVer, cbRuns, seen, sentVer⟩ := t
+        late, renderOut, renderVer, cbRuns, seen, sentVer, lastSent⟩ := t
       task_auto
-    · exact trigTask_ok h (Nat.le_refl _) _ _ (by intro r hr; cases hr; right; decide)
+    · exact trigTask_ok h (Nat.le_refl _) _ _ (by intro r hr; cases hr; exact ⟨rfl, Or.inr (by decide)⟩)
 
 theorem releaseTask_ok {val : Nat} {t : Task} (h : TaskOk val t) (code : Nat) (exc : Bool) :
     TaskOk val (releaseTask t code exc) := by
   unfold releaseTask
   split
-  · obtain ⟨h1, h2, h3, h4, h5, h5', h6, h7, h8, h9, h10, h11⟩ := h
+  · obtain ⟨h1, h2, h3, h4, h5, h5', h6, h7, h8, h9, h10, h11, h12⟩ := h
     obtain ⟨srv, remote, token, observe, phase, runnable, cancelReq, accepted, obsNo, trig, early,
-      late, renderOut, renderVer, cbRuns, seen, sentVer⟩ := t
+      late, renderOut, renderVer, cbRuns, seen, sentVer, lastSent⟩ := t
     cases exc <;> cases phase <;> task_auto
   · exact h
 
@@ -102,18 +108,31 @@ structure Running (val : Nat) (t : Task) : Prop where
   acc : t.accepted = true → t.observe = true
   seenLe : t.seen ≤ val
   nc : t.cancelReq = false
-  trigGood : ∀ r, t.trig = some (some r) → t.seen ≤ r.body ∨ success r.code = false
+  trigGood : ∀ r, t.trig = some (some r) →
+    r.exc = false ∧ (t.seen ≤ r.body ∨ success r.code = false)
+  ls : t.lastSent = false
 
 theorem Running_of_ok {val : Nat} {t : Task} (h : TaskOk val t) (hd : t.phase ≠ .done)
     (hc : t.cancelReq = false) : Running val t := by
-  refine ⟨hd, ?_, h.acc, h.seenLe, hc, h.trigGood⟩
-  have := h.cb
-  simp [hd] at this
-  exact this
+  refine ⟨hd, ?_, h.acc, h.seenLe, hc, h.trigGood, ?_⟩
+  · have := h.cb
+    simp [hd] at this
+    exact this
+  · cases hl : t.lastSent
+    · rfl
+    · exact absurd (h.fin hl).1 hd
 
 theorem finish_ok {val : Nat} {t : Task} (h : Running val t) (r : Resp) :
     TaskOk val (finish t r).1 := by
-  obtain ⟨h1, h2, h3, h4, h5, h6⟩ := h
+  obtain ⟨h1, h2, h3, h4, h5, h6, h7⟩ := h
+  simp only [finish]
+  task_auto
+
+/-- the task ends by a successful last-marked notification of version `r.body` -/
+theorem finishLast_ok {val : Nat} {t : Task} (h : Running val t) (r : Resp)
+    (ho : t.observe = true) (hb : t.accepted = true → t.seen ≤ r.body) :
+    TaskOk val (finish { t with sentVer := r.body, lastSent := true } r).1 := by
+  obtain ⟨h1, h2, h3, h4, h5, h6, h7⟩ := h
   simp only [finish]
   task_auto
 
@@ -124,8 +143,13 @@ theorem afterLoop_ok {val : Nat} {t : Task} (h : Running val t) (r : Resp)
   unfold afterLoop
   split
   · exact finish_ok h r
-  · obtain ⟨h1, h2, h3, h4, h5, h6⟩ := h
-    task_auto
+  · rename_i hg
+    simp only [Bool.or_eq_true, Bool.not_eq_true', not_or, Bool.not_eq_true,
+      Bool.not_eq_false] at hg
+    split
+    · exact finishLast_ok h r ho (fun ha => hb ha hg.1 hg.2)
+    · obtain ⟨h1, h2, h3, h4, h5, h6, h7⟩ := h
+      task_auto
 
 theorem atAwait_ok {val : Nat} {t : Task} (h : Running val t) (plan : Plan)
     (ho : t.observe = true) (hr : t.renderOut = none)
@@ -133,22 +157,22 @@ theorem atAwait_ok {val : Nat} {t : Task} (h : Running val t) (plan : Plan)
     TaskOk val (atAwait val t plan).1 := by
   unfold atAwait
   split
-  · obtain ⟨h1, h2, h3, h4, h5, h6⟩ := h
+  · obtain ⟨h1, h2, h3, h4, h5, h6, h7⟩ := h
     task_auto
   · rename_i r htr
     apply afterLoop_ok
-    · exact ⟨h.nd, h.cb0, h.acc, h.seenLe, h.nc, by simp⟩
+    · exact ⟨h.nd, h.cb0, h.acc, h.seenLe, h.nc, by simp, h.ls⟩
     · exact ho
     · rfl
     · intro _ _ hs
-      rcases h.trigGood r htr with hh | hh
+      rcases (h.trigGood r htr).2 with hh | hh
       · exact hh
       · simp [hs] at hh
   · rename_i htr
     split
     · rename_i r hrr
       apply afterLoop_ok
-      · exact ⟨h.nd, h.cb0, h.acc, h.seenLe, h.nc, by simp⟩
+      · exact ⟨h.nd, h.cb0, h.acc, h.seenLe, h.nc, by simp, h.ls⟩
       · exact ho
       · rfl
       · intro _ he _
@@ -159,7 +183,7 @@ theorem atAwait_ok {val : Nat} {t : Task} (h : Running val t) (plan : Plan)
           simp at he
           simp [he]; exact h.seenLe
         | susp => simp [renderResp] at hrr
-    · obtain ⟨h1, h2, h3, h4, h5, h6⟩ := h
+    · obtain ⟨h1, h2, h3, h4, h5, h6, h7⟩ := h
       task_auto
 
 theorem afterFirst_ok {val : Nat} {t : Task} (h : Running val t) (r : Resp) (plan : Plan)
@@ -172,7 +196,7 @@ theorem afterFirst_ok {val : Nat} {t : Task} (h : Running val t) (r : Resp) (pla
   · rename_i hg
     simp only [Bool.or_eq_true, Bool.not_eq_true', not_or, Bool.not_eq_true] at hg
     apply atAwait_ok
-    · exact ⟨h.nd, h.cb0, h.acc, h.seenLe, h.nc, h.trigGood⟩
+    · exact ⟨h.nd, h.cb0, h.acc, h.seenLe, h.nc, h.trigGood, h.ls⟩
     · exact ho
     · rfl
     · intro ha htn; exact hb hg.1.1.1 ha htn
@@ -190,19 +214,23 @@ theorem startTask_ok {val : Nat} {t : Task} (h : TaskOk val t) (hf : t.phase = .
     (plan : Plan) (acc : Bool) : TaskOk val (startTask val t plan acc).1 := by
   have hw := h.wFresh hf
   have hcb : t.cbRuns = 0 := by have := h.cb; simp [hf] at this; exact this
+  have hls : t.lastSent = false := by
+    cases hl : t.lastSent
+    · rfl
+    · have := (h.fin hl).1; rw [hf] at this; cases this
   cases ho : t.observe <;> cases hrr : renderResp val plan
   · simp only [startTask, ho, hrr, Bool.false_eq_true, ↓reduceIte]
-    obtain ⟨h1, h2, h3, h4, h5, h5', h6, h7, h8, h9, h10, h11⟩ := h
+    obtain ⟨h1, h2, h3, h4, h5, h5', h6, h7, h8, h9, h10, h11, h12⟩ := h
     task_auto
   · simp only [startTask, ho, hrr, Bool.false_eq_true, ↓reduceIte]
-    exact finish_ok ⟨by simp [hf], hcb, h.acc, h.seenLe, hw.2.2.1, h.trigGood⟩ _
+    exact finish_ok ⟨by simp [hf], hcb, h.acc, h.seenLe, hw.2.2.1, h.trigGood, hls⟩ _
   · simp only [startTask, ho, hrr, ↓reduceIte]
-    obtain ⟨h1, h2, h3, h4, h5, h5', h6, h7, h8, h9, h10, h11⟩ := h
+    obtain ⟨h1, h2, h3, h4, h5, h5', h6, h7, h8, h9, h10, h11, h12⟩ := h
     task_auto
   · rename_i r
     simp only [startTask, ho, hrr, ↓reduceIte]
     apply afterFirst_ok
-    · exact ⟨by simp [hf], hcb, by intro _; rfl, h.seenLe, hw.2.2.1, h.trigGood⟩
+    · exact ⟨by simp [hf], hcb, by intro _; rfl, h.seenLe, hw.2.2.1, h.trigGood, hls⟩
     · rfl
     · intro he _ _; rw [renderResp_body hrr he]; exact h.seenLe
 
@@ -221,7 +249,7 @@ theorem stepTask_ok {val : Nat} {t : Task} (h : TaskOk val t) (plan : Plan) (acc
   · exact h
   split
   · -- cancelled: only `finally` runs
-    obtain ⟨h1, h2, h3, h4, h5, h5', h6, h7, h8, h9, h10, h11⟩ := h
+    obtain ⟨h1, h2, h3, h4, h5, h5', h6, h7, h8, h9, h10, h11, h12⟩ := h
     simp only [cancelStep]
     task_auto
   rename_i hrun hnc
@@ -240,7 +268,7 @@ theorem stepTask_ok {val : Nat} {t : Task} (h : TaskOk val t) (plan : Plan) (acc
       · simp [htn] at hc
       · exact hc.2
       · simp [hp] at hc
-    · obtain ⟨h1, h2, h3, h4, h5, h5', h6, h7, h8, h9, h10, h11⟩ := h
+    · obtain ⟨h1, h2, h3, h4, h5, h5', h6, h7, h8, h9, h10, h11, h12⟩ := h
       task_auto
   · -- woken at `await servobs._trigger`
     rename_i hp
@@ -260,33 +288,42 @@ theorem stepTask_ok {val : Nat} {t : Task} (h : TaskOk val t) (plan : Plan) (acc
     have hrun := Running_of_ok h (by simp [hp]) hnc'
     split
     · rename_i r hr
+      have hbody : t.accepted = true → r.exc = false → t.trig = none → t.seen ≤ r.body := by
+        intro ha he htn
+        rw [(h.outPhase r hr).2 he]
+        rcases h.cov ho ha (by simp [hp]) with hc | hc | hc
+        · simp [htn] at hc
+        · exact hc.2
+        · simp [hp] at hc
       unfold afterLoop
       split
       · have : ((finish t r).1.phase == Phase.done) = true := by simp [finish]
         simp only [this, ↓reduceIte]
         exact finish_ok hrun r
       · rename_i hg
-        simp only [Bool.or_eq_true, Bool.not_eq_true', not_or, Bool.not_eq_true] at hg
-        simp only [beq_iff_eq, reduceCtorEq, ↓reduceIte]
-        apply atAwait_ok
-        · exact ⟨by simp, hrun.cb0, hrun.acc, hrun.seenLe, hrun.nc, hrun.trigGood⟩
-        · exact ho
-        · rfl
-        · intro ha htn
-          show t.seen ≤ r.body
-          rw [(h.outPhase r hr).2 hg.1.1]
-          rcases h.cov ho ha (by simp [hp]) with hc | hc | hc
-          · have : t.trig = none := htn
-            simp [this] at hc
-          · exact hc.2
-          · simp [hp] at hc
-    · obtain ⟨h1, h2, h3, h4, h5, h5', h6, h7, h8, h9, h10, h11⟩ := h
+        simp only [Bool.or_eq_true, Bool.not_eq_true', not_or, Bool.not_eq_true,
+          Bool.not_eq_false] at hg
+        split
+        · rename_i hl
+          simp only [Bool.and_eq_true, Option.isNone_iff_eq_none] at hl
+          have : ((finish { t with sentVer := r.body, lastSent := true } r).1.phase == Phase.done)
+              = true := by simp [finish]
+          simp only [this, ↓reduceIte]
+          exact finishLast_ok hrun r ho (fun ha => hbody ha hg.1 hl.2)
+        · simp only [beq_iff_eq, reduceCtorEq, ↓reduceIte]
+          apply atAwait_ok
+          · exact ⟨by simp, hrun.cb0, hrun.acc, hrun.seenLe, hrun.nc, hrun.trigGood, hrun.ls⟩
+          · exact ho
+          · rfl
+          · intro ha htn
+            exact hbody ha hg.1 htn
+    · obtain ⟨h1, h2, h3, h4, h5, h5', h6, h7, h8, h9, h10, h11, h12⟩ := h
       task_auto
   · -- the render of a plain request has finished
     rename_i hp
     split
     · exact finish_ok (Running_of_ok h (by simp [hp]) hnc') _
-    · obtain ⟨h1, h2, h3, h4, h5, h5', h6, h7, h8, h9, h10, h11⟩ := h
+    · obtain ⟨h1, h2, h3, h4, h5, h5', h6, h7, h8, h9, h10, h11, h12⟩ := h
       task_auto
-  · obtain ⟨h1, h2, h3, h4, h5, h5', h6, h7, h8, h9, h10, h11⟩ := h
+  · obtain ⟨h1, h2, h3, h4, h5, h5', h6, h7, h8, h9, h10, h11, h12⟩ := h
     task_auto
